@@ -1,6 +1,7 @@
 import PGM.Proofs.E2EZeros
 import PGM.Properties.C08E
 import PGM.Properties.C10G
+import PGM.Proofs.CellsPos
 /-!
 # C10 (end to end) — declared zero cells in the model the GENERATED `estimate` returns
 
@@ -29,6 +30,10 @@ table whatever is added; the generated `belief_propagation` keeps the layout, `C
 **`gen_estimate_zeros_end_to_end_closed`** / `_L2` / `_L1` have no hypothesis on the loss.  The general forms remain:
 `gen_estimate_zeros_end_to_end_bp` (any loss whose gradient is laid out at the oracle's answers) and
 `gen_estimate_zeros_end_to_end` (… at every argument).
+
+**`gen_estimate_answers_valid_closed`** / `_nozeros`: `C08E.gen_estimate_answers_valid` with hypotheses on the inputs only — the
+returned parameters are nonnegative tables over the model's cliques (`gen_estimate_potentials_sign`, `Proofs/CellsPos.lean`);
+without declared zeros `Z > 0`; with declared zeros `Z ≠ 0` remains a hypothesis (the zeros may rule out every assignment).
 
 RDA / IG: the per-step facts are here (`gen_rda_rebuild_has_zeros`, `gen_ig_update_keeps_zeros`); the end-to-end statement
 for their returned pair `(mle w, w)` needs the two-sorted run described in C08E and is open.
@@ -350,5 +355,129 @@ example : exArgs.engine = "MD" ∧ exEst.cfg.structural_zeros = zeroVec exEst.cf
     (exEst.cfg.warm_start = false ∨ exEst.model = none) ∧ exEst.cfg.metric = Metric.L2 ∧
     (∀ p ∈ exEst.cfg.domain, 0 < p.2) := by
   refine ⟨rfl, rfl, Or.inl rfl, rfl, by decide⟩
+
+/-! ## the answers of the returned model, hypotheses on the inputs only (engine MD) -/
+
+/-- the parameters `_setup` stores on a cold call / the first call: `CliqueVector.zeros(domain, cliques)` combined with the
+structural zeros -/
+theorem gen_theta0_eq (gmc : Dom → List Clique → Option (List Attr) → List Clique) (s : Est (LogOf K))
+    (zs : List ZeroSpec) (hzs : s.cfg.structural_zeros = zeroVec s.cfg.domain zs)
+    (hfresh : s.cfg.warm_start = false ∨ s.model = none) (ms : List (Loss.Meas (LogOf K))) :
+    theta0 gmc s ms
+      = CliqueVec.combine (CliqueVec.zerosV s.cfg.domain (modelCliques gmc s.cfg ms)) (zeroVec s.cfg.domain zs) := by
+  unfold theta0
+  rw [← hzs]
+  rcases hfresh with h | h
+  · simp [Engine.initialTheta, cfgOf, h]
+  · obtain ⟨c, m, g⟩ := s
+    simp only at h
+    subst h
+    exact C13.first_call_initial (cfgOf c) _
+
+/-- **sign of the returned parameters (engine MD, exp-space reading)**: every cell of the potentials of the object the
+generated `estimate` returns is `≥ 0` (`exp` of a log-potential; `-inf ↦ 0`), and `> 0` when no structural zero is declared —
+every loss, every iteration count, every exit (`CellsPos.md_P`: the update `theta - alpha*dL` keeps the sign for every
+`alpha`, `dL`) -/
+theorem gen_estimate_potentials_sign (nx : Nx) (estT : List (Loss.Meas (LogOf K)) → LogOf K)
+    (logf : Factor (LogOf K) → Factor (LogOf K)) (topEigs : List (Loss.Meas (LogOf K)) → List (LogOf K))
+    (logger : V) (cbVal : Option Cb → V) (s : Est (LogOf K)) (a : Args (LogOf K) V Cb) (hMD : a.engine = "MD")
+    (zs : List ZeroSpec) (hzs : s.cfg.structural_zeros = zeroVec s.cfg.domain zs)
+    (hfresh : s.cfg.warm_start = false ∨ s.model = none) :
+    ∃ g, (estimateG (gmC nx) estT (bpO nx) (mleO logf nx) topEigs logger cbVal s a).2.2 = some g ∧
+      (∀ p ∈ g.potentials, ∀ x ∈ p.2.vals.data.toList, 0 ≤ x.v) ∧
+      (zs = [] → ∀ p ∈ g.potentials, ∀ x ∈ p.2.vals.data.toList, 0 < x.v) := by
+  obtain ⟨h1, _, _⟩ := gen_estimate_closed (gmC nx) estT (bpO nx) (mleO logf nx) topEigs logger cbVal s a (Or.inl hMD)
+  have hr : solverRun (gmC nx) estT (bpO nx) (mleO logf nx) topEigs s a
+      = InfG.mirrorDescent (bpO nx (freshGM (gmC nx) estT s a)) (lossOf s.cfg (freshGM (gmC nx) estT s a) (measOf s a))
+          s.cfg.iters (theta0 (gmC nx) s (measOf s a)) (freshGM (gmC nx) estT s a).total := by
+    simp only [solverRun, hMD]; rfl
+  have hθ := gen_theta0_eq (gmC nx) s zs hzs hfresh (measOf s a)
+  refine ⟨_, h1, ?_, ?_⟩
+  · show CellsPos.VecP (fun x : K => 0 ≤ x) (solverRun (gmC nx) estT (bpO nx) (mleO logf nx) topEigs s a).potentials
+    rw [hr]
+    exact CellsPos.md_P _ zero_le_one (fun _ _ => mul_nonneg) _ _ _ _ _ (hθ ▸ CellsPos.theta0_nonneg _ _ zs)
+  · intro hzs0
+    subst hzs0
+    show CellsPos.VecP (fun x : K => 0 < x) (solverRun (gmC nx) estT (bpO nx) (mleO logf nx) topEigs s a).potentials
+    rw [hr]
+    exact CellsPos.md_P _ zero_lt_one (fun _ _ => mul_pos) _ _ _ _ _ (hθ ▸ CellsPos.theta0_pos _ _)
+
+/-- **THE ANSWERS OF THE RETURNED MODEL ARE ONE VALID DISTRIBUTION — HYPOTHESES ON THE INPUTS ONLY** (engine MD, the generated
+`_marginal_loss` of either metric, arbitrary measurements, cold call or first call).  `C08E.gen_estimate_answers_valid` asked
+the returned parameters to be nonnegative tables over the model's cliques (`PotsOK`) and `Z ≠ 0`.  Here `PotsOK` is PROVED
+(layout: `gen_estimate_zeros_end_to_end_closed`; sign: `gen_estimate_potentials_sign`), and
+
+* with NO declared structural zero (`zs = []`) also `Z > 0` is proved (all log-potentials finite, domain without an attribute
+  of size 0): the four clauses hold unconditionally — `gen_estimate_answers_valid_nozeros`;
+* with declared zeros `Z ≠ 0` REMAINS a hypothesis: the zeros can rule out every assignment (`Z = 0`, the `0/0` of the
+  source), which no hypothesis on the layout excludes. -/
+theorem gen_estimate_answers_valid_closed (nx : Nx) (estT : List (Loss.Meas (LogOf K)) → LogOf K)
+    (logf : Factor (LogOf K) → Factor (LogOf K)) (topEigs : List (Loss.Meas (LogOf K)) → List (LogOf K))
+    (logger : V) (cbVal : Option Cb → V) (s : Est (LogOf K)) (a : Args (LogOf K) V Cb) (hMD : a.engine = "MD")
+    (zs : List ZeroSpec) (hzs : s.cfg.structural_zeros = zeroVec s.cfg.domain zs)
+    (hfresh : s.cfg.warm_start = false ∨ s.model = none)
+    (hd : s.cfg.domain.WF) (hne : s.cfg.domain.attrs ≠ []) (hsizes : ∀ p ∈ s.cfg.domain, 0 < p.2)
+    (hin : ∀ c ∈ inCliques s.cfg (measOf s a), c.Nodup ∧ ∀ x ∈ c, x ∈ s.cfg.domain.attrs)
+    (hadm : Admissible nx s.cfg.domain (inCliques s.cfg (measOf s a)) (modeOf s.cfg.elim_order))
+    (hz : ∀ z ∈ zs, z.zc.Nodup ∧ (∀ x ∈ z.zc, x ∈ s.cfg.domain.attrs) ∧
+      ∃ q ∈ modelCliques (gmC nx) s.cfg (measOf s a), JT.subset z.zc q = true) :
+    ∃ g, (estimateG (gmC nx) estT (bpO nx) (mleO logf nx) topEigs logger cbVal s a).2.2 = some g ∧
+      g.domain = s.cfg.domain ∧
+      PotsOK g.domain g.cliques g.potentials ∧
+      (zs = [] → 0 < partition g.domain g.potentials) ∧
+      ∀ m, g.marginals = some m → partition g.domain g.potentials ≠ 0 →
+        (∀ c ∈ g.cliques, ∀ σ, g.domain.Valid σ →
+          ((m.get c).sem σ).v = g.total.v * marginal g.domain g.potentials c σ / partition g.domain g.potentials) ∧
+        (0 ≤ g.total.v → ∀ c ∈ g.cliques, ∀ σ, g.domain.Valid σ → 0 ≤ ((m.get c).sem σ).v) ∧
+        ((∀ p ∈ g.domain, 0 < p.2) → ∀ c ∈ g.cliques,
+          sumOver g.domain c (fun _ => 0) (fun τ => ((m.get c).sem τ).v) = g.total.v) ∧
+        (∀ c1 ∈ g.cliques, ∀ c2 ∈ g.cliques, ∀ A : List Attr, (∀ x ∈ A, x ∈ c1) → (∀ x ∈ A, x ∈ c2) →
+          ∀ σ, g.domain.Valid σ →
+          sumOver g.domain (c1.filter (fun x => !A.contains x)) σ (fun τ => ((m.get c1).sem τ).v)
+            = sumOver g.domain (c2.filter (fun x => !A.contains x)) σ (fun τ => ((m.get c2).sem τ).v)) := by
+  obtain ⟨g, hg, hcl, hZI, _, _⟩ := gen_estimate_zeros_end_to_end_closed nx estT logf topEigs logger cbVal s a hMD zs hzs hfresh hd hne hsizes hin hadm hz
+  obtain ⟨g', hg', hdom, hval⟩ := gen_estimate_answers_valid nx estT logf topEigs logger cbVal s a hMD hd hne hin hadm
+  obtain ⟨g'', hg'', hnn, hpp⟩ := gen_estimate_potentials_sign nx estT logf topEigs logger cbVal s a hMD zs hzs hfresh
+  have e1 : g' = g := Option.some.inj (hg'.symm.trans hg)
+  have e2 : g'' = g := Option.some.inj (hg''.symm.trans hg)
+  subst e1; subst e2
+  have hclq := (gen_init_cliques_ok nx s.cfg.domain (inCliques s.cfg (measOf s a)) () (modeOf s.cfg.elim_order) hd hne hin hadm).2.2
+  have hpots : PotsOK g''.domain g''.cliques g''.potentials := by
+    rw [hdom]
+    exact potsOK_of_vecOK s.cfg.domain g''.cliques (by rw [hcl]; exact hclq) g''.potentials hZI.1 hnn
+  refine ⟨g'', hg, hdom, hpots, fun h0 => ?_, fun m hm hZ => hval m hm hpots hZ⟩
+  rw [hdom]
+  exact CellsPos.partition_pos s.cfg.domain hd g''.potentials (hpp h0) _ (CellsPos.valid_zero _ hsizes)
+
+/-- **no declared structural zero: unconditional** — every stored clique table of the object the generated
+`estimate(engine='MD')` returns is `total · marginal / Z` of the joint of the stored potentials with `Z > 0`; nonnegative;
+sums to the total; any two agree on shared attributes -/
+theorem gen_estimate_answers_valid_nozeros (nx : Nx) (estT : List (Loss.Meas (LogOf K)) → LogOf K)
+    (logf : Factor (LogOf K) → Factor (LogOf K)) (topEigs : List (Loss.Meas (LogOf K)) → List (LogOf K))
+    (logger : V) (cbVal : Option Cb → V) (s : Est (LogOf K)) (a : Args (LogOf K) V Cb) (hMD : a.engine = "MD")
+    (hzs : s.cfg.structural_zeros = [])
+    (hfresh : s.cfg.warm_start = false ∨ s.model = none)
+    (hd : s.cfg.domain.WF) (hne : s.cfg.domain.attrs ≠ []) (hsizes : ∀ p ∈ s.cfg.domain, 0 < p.2)
+    (hin : ∀ c ∈ inCliques s.cfg (measOf s a), c.Nodup ∧ ∀ x ∈ c, x ∈ s.cfg.domain.attrs)
+    (hadm : Admissible nx s.cfg.domain (inCliques s.cfg (measOf s a)) (modeOf s.cfg.elim_order)) :
+    ∃ g, (estimateG (gmC nx) estT (bpO nx) (mleO logf nx) topEigs logger cbVal s a).2.2 = some g ∧
+      g.domain = s.cfg.domain ∧ 0 < partition g.domain g.potentials ∧
+      ∀ m, g.marginals = some m →
+        (∀ c ∈ g.cliques, ∀ σ, g.domain.Valid σ →
+          ((m.get c).sem σ).v = g.total.v * marginal g.domain g.potentials c σ / partition g.domain g.potentials) ∧
+        (0 ≤ g.total.v → ∀ c ∈ g.cliques, ∀ σ, g.domain.Valid σ → 0 ≤ ((m.get c).sem σ).v) ∧
+        ((∀ p ∈ g.domain, 0 < p.2) → ∀ c ∈ g.cliques,
+          sumOver g.domain c (fun _ => 0) (fun τ => ((m.get c).sem τ).v) = g.total.v) ∧
+        (∀ c1 ∈ g.cliques, ∀ c2 ∈ g.cliques, ∀ A : List Attr, (∀ x ∈ A, x ∈ c1) → (∀ x ∈ A, x ∈ c2) →
+          ∀ σ, g.domain.Valid σ →
+          sumOver g.domain (c1.filter (fun x => !A.contains x)) σ (fun τ => ((m.get c1).sem τ).v)
+            = sumOver g.domain (c2.filter (fun x => !A.contains x)) σ (fun τ => ((m.get c2).sem τ).v)) := by
+  obtain ⟨g, h1, h2, _, h4, h5⟩ := gen_estimate_answers_valid_closed nx estT logf topEigs logger cbVal s a hMD [] hzs hfresh
+    hd hne hsizes hin hadm (fun z hz => by cases hz)
+  exact ⟨g, h1, h2, h4 rfl, fun m hm => h5 m hm (ne_of_gt (h4 rfl))⟩
+
+/-- the hypotheses of `gen_estimate_answers_valid_nozeros` hold on the example estimator of C08E -/
+example : exArgs.engine = "MD" ∧ exEst.cfg.structural_zeros = [] ∧ (exEst.cfg.warm_start = false ∨ exEst.model = none) ∧
+    (∀ p ∈ exEst.cfg.domain, 0 < p.2) := ⟨rfl, rfl, Or.inl rfl, by decide⟩
 
 end PGM.C10E
